@@ -652,7 +652,7 @@ def _check_step_snaps(u, eng, ctx, T, res, doublings, inst, nan_obl=False):
 def c03_step(out, tier, seed):
     eng = mir_load.load_engine()
     mirsym.MUL_MODE["mode"] = "uf"
-    cfgs = [(1, 1)] if tier == "quick" else [(1, 2), (2, 1)]
+    cfgs = [(1, 2)] if tier == "quick" else [(1, 2), (2, 1), (2, 2)]
     u = MUnit(out, "C03", "c03_step", eng,
               functions=["NUTSChain::step (whole transition incl. the doubling loop and the adaptation tail)", "nuts::build_tree",
                          "nuts::leapfrog", "nuts::stop_criterion"],
@@ -766,6 +766,12 @@ def c07_nuts_set_seed(out, tier, seed):
 
 
 def replay_nuts_seed():
-    nat = native({"case": "nuts_set_seed_max"})
-    bad = [p for p, r in nat.items() if isinstance(r, dict) and (r.get("panic") or r.get("distinct") is False)]
-    return bool(bad), {"case": {"case": "nuts_set_seed_max"}, "native": nat, "reproduced_in": bad}
+    tried = []
+    for seed in (2 ** 64 - 2, 2 ** 64 - 1, 2 ** 64 - 3, 7):
+        case = {"case": "nuts_set_seed_max", "seed": seed}
+        nat = native(case)
+        bad = [p for p, r in nat.items() if isinstance(r, dict) and (r.get("panic") or r.get("distinct") is False or r.get("reproducible") is False)]
+        tried.append({"case": case, "native": nat})
+        if bad:
+            return True, {"case": case, "native": nat, "reproduced_in": bad}
+    return False, {"tried": tried}
